@@ -313,11 +313,15 @@ pub fn run(args: &Args, out: &mut Out) {
     let files = corpus_files(&args.repo);
     let ncorpus = files.len();
     let ngen = args.cases(600, 20000);
+    let fam = super::progcase::family_cases();
     drive(
         args,
         out,
-        ncorpus + ngen,
+        ncorpus + ngen + fam.len(),
         |idx, rng| {
+            if idx >= ncorpus + ngen {
+                return fam.get(idx - ncorpus - ngen).cloned();
+            }
             if idx < ncorpus {
                 let f = &files[idx];
                 let src = std::fs::read_to_string(f).ok()?;
